@@ -42,7 +42,7 @@ func boundTransposition(d *Desc, steps []Step) []Step {
 	m := NewModel(d)
 	for i, s := range steps {
 		if s.T == "key" {
-			m.Key(s.Sub, s.Code, s.Val)
+			m.Key(s.SK(), s.Code, s.Val)
 		}
 		if m.Octave > 12 || m.Octave < -12 || m.Semitone > 120 || m.Semitone < -120 {
 			return steps[:i]
@@ -114,7 +114,7 @@ func pairHeldPoints(d *Desc, steps []Step) []int {
 			out = append(out, i)
 		}
 		if i < len(steps) && steps[i].T == "key" {
-			m.Key(steps[i].Sub, steps[i].Code, steps[i].Val)
+			m.Key(steps[i].SK(), steps[i].Code, steps[i].Val)
 		}
 	}
 	return out
@@ -128,7 +128,7 @@ func legalPanicPoints(d *Desc, steps []Step) []int {
 			legal = append(legal, i)
 		}
 		if i < len(steps) && steps[i].T == "key" {
-			m.Key(steps[i].Sub, steps[i].Code, steps[i].Val)
+			m.Key(steps[i].SK(), steps[i].Code, steps[i].Val)
 		}
 	}
 	if len(legal) == 0 {
